@@ -1172,6 +1172,16 @@ class Executor:
             return a
         if o is isinstance:
             return V(BOOL, self.isinstance(st, args[0], args[1]))
+        if o is next and len(args) == 2 and isinstance(args[0], PyObj) and isinstance(args[0].o, tuple) and args[0].o[0] == "genexp" \
+                and isinstance(args[1], K) and args[1].v is None:
+            # next((<elt> for x in xs if c), None): the first element of the (filtered) comprehension, None when it is empty
+            g = args[0].o[1]
+            xs = self.comprehension(st, ast.ListComp(elt=g.elt, generators=g.generators))
+            if not (isinstance(xs, V) and isinstance(xs.ty, TList)):
+                raise Unsupported("next() over this generator")
+            ot = TOpt(xs.ty.elem) if not isinstance(xs.ty.elem, TOpt) else xs.ty.elem
+            first = coerce(V(xs.ty.elem, z3.Select(seq_arr(xs), 0)), ot)
+            return V(ot, z3.If(seq_len(xs) > 0, first.z, ot.sort().none))
         if o is enumerate:
             return PyObj(("enumerate", args[0]))
         if o is reversed:
